@@ -710,6 +710,31 @@ func c18PlaintextSender(env *Env, where, addr string, proto int, z *zoo, domain 
 	}
 	t := gTemplate{Dom: domain, ID: 256, Fields: []gField{{F: ipfixref.Field{ID: 7, Len: 2}, Known: true, Width: 2}}}
 	msgs := [][]byte{t.templateMsg(ipfixref.Header{}), t.dataMsg(ipfixref.Header{}, []byte{1, 2}), t.dataMsg(ipfixref.Header{}, []byte{3, 4})}
+	// Other peers may be in the middle of their handshakes meanwhile - connected, nothing said yet, or
+	// half a ClientHello sent: 0, 3, 8 or 20 of them, by the session's domain number. They hold their
+	// connections until the sender is done.
+	var pending []net.Conn
+	if proto == 0 {
+		for i, n := 0, []int{0, 3, 8, 20}[int(domain)%4]; i < n; i++ {
+			var pc net.Conn
+			var perr error
+			Block("dial", func() { pc, perr = env.Net.Dial("tcp", addr) })
+			if perr != nil {
+				break
+			}
+			if i%2 == 1 {
+				Block("write", func() { pc.Write([]byte{22, 3, 1, 0, 200, 1, 0, 0, 196, 3, 3}) })
+			}
+			pending = append(pending, pc)
+		}
+		env.Count("fault.plaintext_sender_behind_pending_handshakes", int64(len(pending)))
+		env.Sleep(10 * time.Millisecond)
+		defer func() {
+			for _, pc := range pending {
+				pc.Close()
+			}
+		}()
+	}
 	var c net.Conn
 	Block("dial", func() {
 		if proto == 0 {
